@@ -29,7 +29,12 @@ EXPLANATION = (
     "REFUTED by a witness (no root: the minimiser is returned), replayed on the code. "
     "Model values are compared with the implementation (on stub collaborators) by "
     "certified interval evaluation, including the decision path; the property is "
-    "evaluated directly on EOM.findPlasmaProfile for real models on all three branches.")
+    "evaluated directly on EOM.findPlasmaProfile for real models on all three branches, in "
+    "histories of calls on one object without re-gridding, and end to end on the "
+    "BoltzmannBackground / WallGoResults returned by wallPressure and "
+    "findWallVelocityDeflagrationHybrid (LTE); call-site facts of the path wallPressure -> "
+    "_getNextPressure -> _intermediatePressureResults -> findPlasmaProfile (argument "
+    "positions, freeze guard, default forceEnergyConservation) are checked fail closed.")
 
 RTOL = Fraction(1, 10 ** 9)
 ATOL = Fraction(1, 10 ** 12)
@@ -667,7 +672,9 @@ def run_profile(name, vw, widths, offsets, shape, seed, amp, errTol=1e-6, offEq=
         r30 = (w * g2 * v[k] + o30 - c1) / abs(c1)
         r33 = (0.5 * float(np.sum(dp ** 2)) - V + w * g2 * v[k] ** 2 + o33 - c2) / abs(c2)
         d = dict(k=k, T=float(T[k]), v=float(v[k]), path=path, r30=r30, r33=r33, w=w,
-                 tmin=rp["tmin"], fmin_rel=rp["fmin"] / abs(c2))
+                 tmin=rp["tmin"], fmin_rel=rp["fmin"] / abs(c2),
+                 # size of what was supplied on top of the equilibrium problem, in units of |c2|
+                 pert_rel=(abs(o30) + abs(o33)) / abs(c2))
         if path == "root":
             d.update(bracket=rp["bracket"], fa=rp["fa"], fb=rp["fb"], root=rp["root"],
                      root_err=abs(rp["root"] - rp["ref"]), root_ref=rp["ref"],
@@ -819,12 +826,15 @@ def judge(ctx, name, vw, widths, offsets, shape, seed, amp, res, stats, errTol=1
             # Class of the registered finding "success-without-root", by its MECHANISM: the point
             # solver took the no-root path, the minimum of the LHS is positive, and the T33
             # residual recomputed independently EQUALS that minimum (theorems
-            # no_root_returns_minimum + T33 residual = LHS); it can only arise from supplied
-            # moments or from boundary constants that violate the junction conditions; a
-            # residual above 1e-3 |c2| is not accepted under this key.
-            if d["path"] == "early" and 0 < d["fmin_rel"] < 1e-3 and \
-                    abs(d["r33"] - d["fmin_rel"]) <= TOL_CONS and \
-                    (shape != "none" or junction_bad):
+            # no_root_returns_minimum + T33 residual = LHS). The equilibrium problem with
+            # consistent boundary constants has a root, and dLHS/ds1 <= 1, dLHS/ds2 = -1, so the
+            # minimum cannot exceed what was put on top of it: the supplied stress |Tout30| +
+            # |Tout33| plus the measured defects of the junction conditions. Anything larger
+            # (in particular any residual without moments and with good matching) is a VIOLATION.
+            cap = 1.05 * (d["pert_rel"] + abs(h["j1"]) * abs(res["c1"] / res["c2"]) + abs(h["j2"])) \
+                + TOL_CONS
+            if d["path"] == "early" and 0 < d["fmin_rel"] <= cap and \
+                    abs(d["r33"] - d["fmin_rel"]) <= TOL_CONS:
                 stats.setdefault("finding", []).append(dict(rep, k=d["k"], r33=d["r33"],
                                                             T=d["T"], v=d["v"],
                                                             fmin_rel=d["fmin_rel"],
@@ -1044,6 +1054,8 @@ def direct_validation(ctx):
                 ctx.sample(dict(model=name, vw=vw, branch=res["branch"],
                                 Tp_minus_Tn_rel=(res["Tp"] - res["Tn"]) / res["Tn"],
                                 worst=[stats.get("worst30"), stats.get("worst33")]))
+    ctx.cov["asymptote_hypotheses_not_met"] = stats.get("hyp_bad", 0)
+    ctx.cov["profiles_without_success_nothing_claimed"] = stats.get("nosuccess", 0)
     ctx.log("direct validation: %d profiles;" % ctx.cov["correspondence"].get("profile", 0),
             "worst |dT30|/|c1| = %.2e, worst |dT33|/|c2| (conserving "
             "points) = %.2e, worst asymptote error = %.2e, profiles without success: %d" % (
@@ -1087,7 +1099,7 @@ def direct_validation(ctx):
             for d in res.get("points", []):
                 if d["path"] == "early" and res["success"] and \
                         abs(d["r33"]) > tol_cons(base["errTol"]) and \
-                        0 < d["fmin_rel"] < 1e-3 and \
+                        0 < d["fmin_rel"] <= 1.05 * d["pert_rel"] + tol_cons(base["errTol"]) and \
                         abs(d["r33"] - d["fmin_rel"]) <= tol_cons(base["errTol"]):
                     recorded.append(dict(base, k=d["k"], r33=d["r33"], T=d["T"], v=d["v"],
                                          fmin_rel=d["fmin_rel"]))
